@@ -799,10 +799,13 @@ func describePanic(r interface{}) string {
 	return fmt.Sprint(r)
 }
 
+// RepoDir is the root of the tree under test (positions are reported relative to it).
+var RepoDir = "/repo"
+
 func shortPos(p token.Position) string {
 	f := p.Filename
-	if k := strings.Index(f, "/repo/"); k >= 0 {
-		f = f[k+6:]
+	if strings.HasPrefix(f, RepoDir+"/") {
+		f = f[len(RepoDir)+1:]
 	} else if k := strings.Index(f, "/pkg/mod/"); k >= 0 {
 		f = f[k+9:]
 	} else if k := strings.Index(f, "/src/"); k >= 0 {
